@@ -23,6 +23,7 @@ def run(chk, repo):
         'C20.c the cleavage-exception literal is a key of EXPASY_RULES',
         'C20.d values appended to the fixed-index list are residue indices (cut positions need a conversion)',
         'C20.e reverse/shuffle copy fixed residues from their own index and fill the rest from the permuted movable indices',
+        'C20.f the tail fill of reverse/shuffle appends exactly the missing number of residues (len(target) - len(decoy so far))',
     ]
     chk.not_decided = ['that the rearrangement loops keep every fixed position for all index sets (loop invariants)']
     gen = repo.func(D + 'generate_decoy_sequence')
@@ -232,3 +233,30 @@ def run(chk, repo):
         chk.ob('C20.e', f"{nm}: consecutive fixed residues can be emitted in place", repo.loc(f, loop), ok,
                f"{nm}: {detail}: with adjacent fixed positions the second one is displaced and the decoy is no longer a rearrangement that keeps them",
                key=f.qual + '::consecutive-fixed', fn=f.qual)
+
+    # ------------------------------------------------------------------ f
+    from sa.affine import simple_aff, Aff
+    chk.rule('C20.f', 'R-AFFINE-EQV: the tail fill appends exactly len(seq) - len(decoy) residues (decoy length == target length)', 2)
+    for nm in ('reverse_sequence', 'shuffle_sequence'):
+        f = repo.func(D + nm)
+        fills = [n for n in walk_no_nested(f.node) if isinstance(n, ast.If) and len(n.test.ops if isinstance(n.test, ast.Compare) else []) == 1
+                 and isinstance(n.test.ops[0], ast.Lt) and call_name(n.test.left) == 'len' and call_name(n.test.comparators[0]) == 'len']
+        ok = False
+        detail = 'tail fill `if len(decoy) < len(seq)` not found'
+        if len(fills) == 1:
+            out_l, seq_l = unparse(fills[0].test.left), unparse(fills[0].test.comparators[0])     # len(shuffled_seq), len(seq)
+            out_n, seq_n = unparse(fills[0].test.left.args[0]), unparse(fills[0].test.comparators[0].args[0])
+            sl = [x for st in fills[0].body for x in ast.walk(st) if isinstance(x, ast.Subscript) and isinstance(x.slice, ast.Slice) and unparse(x.value) == seq_n]
+            aug = [st for st in fills[0].body if isinstance(st, ast.AugAssign) and unparse(st.target) == out_n] + \
+                  [st for st in fills[0].body if isinstance(st, ast.Expr) and call_name(st.value) == 'extend' and unparse(st.value.func.value) == out_n]
+            if len(sl) == 1 and len(aug) == 1 and sl[0].slice.upper is None and sl[0].slice.step is None and sl[0].slice.lower is not None:
+                lo = simple_aff(sl[0].slice.lower)
+                A, N = Aff.sym(out_l), Aff.sym(seq_l)
+                # under the guard A < N:  seq[A - N:] (negative index) and seq[A:] both have N - A elements
+                ok = lo is not None and (lo == A - N or lo == A)
+                detail = f"the fill appends `{unparse(sl[0])}` whose lower bound is {lo}; only {A - N} (from the end) or {A} make its length len(seq) - len(decoy)"
+            else:
+                detail = 'tail fill is not a single slice of the target appended to the decoy'
+        chk.ob('C20.f', f"{nm}: after the tail fill the decoy has len(seq) residues", repo.loc(f, fills[0]) if fills else f.where, ok,
+               f"{nm}: {detail}: with duplicated or out-of-range fixed indices the count of list entries differs from the number of missing residues, so the decoy "
+               "gains / loses residues and is no longer a rearrangement of the target", key=f.qual + '::tail-fill', fn=f.qual)
